@@ -1983,3 +1983,29 @@ Proof.
   - eapply merge_pass_keys; eauto.
   - eapply merge_pass_vals; eauto.
 Qed.
+
+(* the only panic of Merge that the model knows (nil PeriodType dereferenced by compatible) cannot
+   happen when every input has a period type *)
+Theorem merge_no_panic_lemma : forall ps,
+  Forall (fun p => p_periodtype p <> None) ps -> merge ps <> MPanic.
+Proof.
+  intros ps F.
+  assert (C : forall p0 rest, p_periodtype p0 <> None -> Forall (fun p => p_periodtype p <> None) rest ->
+                              compat_all p0 rest <> CompatPanic).
+  { intros p0. induction rest as [|p r IH]; intros H0 Fr; cbn [compat_all]; [discriminate|].
+    inversion Fr as [|? ? Hp Fr']; subst. unfold compatible.
+    destruct (p_periodtype p0); [|congruence]. destruct (p_periodtype p); [|congruence].
+    destruct (vt_eqb v v0 && vts_eqb (p_sampletype p0) (p_sampletype p)); [|discriminate].
+    apply IH; [discriminate | exact Fr']. }
+  assert (P : forall qs, Forall (fun p => p_periodtype p <> None) qs -> merge_pass qs <> MPanic).
+  { intros qs Fq. unfold merge_pass. destruct qs as [|p0 rest]; [discriminate|].
+    inversion Fq; subst. destruct (compat_all p0 rest) eqn:E; try discriminate. exfalso. eapply C; eauto. }
+  assert (S1 : forall p, merge_pass [p] <> MPanic) by (intros p; unfold merge_pass; cbn; discriminate).
+  unfold merge. cbn [merge_fuel].
+  destruct (merge_pass ps) as [p1| | |] eqn:E1; try discriminate; [|exfalso; eapply P; eauto].
+  destruct (existsb is_zero_sample (p_sample p1)); [|discriminate].
+  destruct (merge_pass [p1]) as [p2| | |] eqn:E2; try discriminate; try (exfalso; eapply S1; eauto; fail).
+  destruct (existsb is_zero_sample (p_sample p2)); [|discriminate].
+  destruct (merge_pass [p2]) as [p3| | |] eqn:E3; try discriminate; try (exfalso; eapply S1; eauto; fail).
+  destruct (existsb is_zero_sample (p_sample p3)); discriminate.
+Qed.
